@@ -12,15 +12,44 @@
 (* moment, and the result of expireAt / persist must not depend on whether it already has ("whether or not     *)
 (* background eviction has run").  So expireAt / persist on an expired key are no-ops like on an absent key.   *)
 (*                                                                                                            *)
-(* Operation record o = [op, k, v, d, t, ks, vs]:  set k v | setttl k v d (d = TTL) | rm k | exp k t (absolute)*)
-(*   | per k | batch ks vs d (d = 0: plain) | clear | rmp ks (keys having the prefix) | anything else: no      *)
-(*   change of the map (compact, reopen, get, tick, ...)                                                       *)
+(* Operation record o = [op, k, v, d, t, ks, vs, u]:  set k v | setttl k v d (d = TTL) | rm k | exp k t (absolute)*)
+(*   | per k | batch ks vs d (d = 0: plain) | clear | rmp k (k = id of a PREFIX of key universe u: every key   *)
+(*   whose byte string starts with it) | anything else: no change of the map (compact, reopen, get, tick, ...)  *)
+(*                                                                                                            *)
+(* Keys are BYTE STRINGS.  The key ids 1..3 of the specifications stand for the byte strings of a "key        *)
+(* universe" u (tables below; the driver logs its own tables and the trace specification compares them):       *)
+(*   u = 0   "a\0b", "a\xff\xfe\x01", 65535 x 'k' (longest legal key)                                          *)
+(*   u = 1   binary keys that are prefixes of each other and differ only AFTER an embedded NUL byte:           *)
+(*           "a\0", "a\0b", "a"                                                                                *)
+(* and six prefixes per universe (with embedded NUL, empty, equal to a key, longer than every key, agreeing    *)
+(* with a key up to the NUL and differing after it).  "k has prefix p" is decided HERE, on the byte strings:   *)
+(* length(p) <= length(k) and the first length(p) bytes are equal - every byte value counts, 0x00 included.    *)
+(* A byte string is [pre, fill, n]: the bytes of pre, then `fill` repeated up to the length n.                 *)
 EXTENDS Integers, Sequences, FiniteSets
 
 Inf == 1000000
 NoKey == [val |-> 0, exp |-> 0]
 SeqRange(s) == {s[i] : i \in 1..Len(s)}
 IdxOf(s, x) == CHOOSE i \in 1..Len(s) : s[i] = x
+
+Str(bytes) == [pre |-> bytes, fill |-> 0, n |-> Len(bytes)]
+Rep(b, n) == [pre |-> <<>>, fill |-> b, n |-> n]
+ByteAt(s, i) == IF i <= Len(s.pre) THEN s.pre[i] ELSE s.fill
+NPfx == 6
+KeyStr(u, k) ==
+    IF u = 0 THEN CASE k = 1 -> Str(<<97, 0, 98>>) [] k = 2 -> Str(<<97, 255, 254, 1>>) [] OTHER -> Rep(107, 65535)
+             ELSE CASE k = 1 -> Str(<<97, 0>>)     [] k = 2 -> Str(<<97, 0, 98>>)       [] OTHER -> Str(<<97>>)
+PfxStr(u, p) ==
+    IF u = 0 THEN CASE p = 1 -> Str(<<97>>)        [] p = 2 -> Str(<<>>)          [] p = 3 -> Str(<<97, 0>>)
+                    [] p = 4 -> Str(<<97, 0, 98, 0>>) [] p = 5 -> Str(<<107, 107>>) [] OTHER -> Str(<<97, 255>>)
+             ELSE CASE p = 1 -> Str(<<97, 0>>)     [] p = 2 -> Str(<<97, 0, 98>>) [] p = 3 -> Str(<<97, 0, 99>>)
+                    [] p = 4 -> Str(<<97, 0, 98, 0>>) [] p = 5 -> Str(<<0>>)       [] OTHER -> Str(<<97>>)
+IsPrefixOf(p, s) == p.n <= s.n /\ \A i \in 1..p.n : ByteAt(p, i) = ByteAt(s, i)
+HasPrefix(u, k, p) == IsPrefixOf(PfxStr(u, p), KeyStr(u, k))
+(* the deviation class "C string comparison": strncmp(key, prefix, length(prefix)) = 0 - stops at the first NUL of  *)
+(* either operand (a string that has ended reads as NUL)                                                          *)
+CByte(s, i) == IF i <= s.n THEN ByteAt(s, i) ELSE 0
+CStrPrefix(p, s) == \A i \in 1..p.n : (\A j \in 1..(i - 1) : CByte(p, j) = CByte(s, j) /\ CByte(p, j) # 0) => CByte(p, i) = CByte(s, i)
 
 LiveAt(e, now, bl) == e > now \/ (bl /\ e = now)
 Live(m, k, now, bl) == m[k].val # 0 /\ LiveAt(m[k].exp, now, bl)
@@ -35,11 +64,12 @@ AbsEff(o, m, now, bl) ==
                                 THEN [val |-> o.vs[IdxOf(o.ks, k)], exp |-> IF o.d = 0 THEN Inf ELSE now + o.d]
                                 ELSE m[k]]
       [] o.op = "clear"  -> [k \in DOMAIN m |-> NoKey]
-      [] o.op = "rmp"    -> [k \in DOMAIN m |-> IF k \in SeqRange(o.ks) THEN NoKey ELSE m[k]]
+      [] o.op = "rmp"    -> [k \in DOMAIN m |-> IF HasPrefix(o.u, k, o.k) THEN NoKey ELSE m[k]]
       [] OTHER           -> m
 
 (* the read APIs as projections of {k : Live(k)} *)
 AbsGet(m, k, now, bl)  == IF Live(m, k, now, bl) THEN m[k].val ELSE 0
 AbsKeys(m, now, bl)    == {k \in DOMAIN m : Live(m, k, now, bl)}
+AbsPfx(m, u, p, now, bl) == {k \in AbsKeys(m, now, bl) : HasPrefix(u, k, p)}
 AbsTtl(m, k, now, bl)  == IF Live(m, k, now, bl) /\ m[k].exp # Inf THEN m[k].exp - now ELSE -1
 =============================================================================
